@@ -1,5 +1,5 @@
-/* executor for family `storefault` (property C17, store part): the request language of family `store` (see x_store.c) plus
+/* executor for family `storefault` (property C17, store part): the request language of family `store` (see x_store_body.h) plus
    `fault <cls> <k>` before an op: the k-th allocation of class cls (1 = SQLite's allocator, 2 = ICU's) made during that op
    fails (harness/alloc.h).  The step of a faulted op carries ` !fault<fired>`; the generator repeats the op right after. */
 #define VERIF_HOOK_SQLITE_ICU 1
-#include "x_store.c"
+#include "x_store_body.h"
